@@ -1,6 +1,12 @@
 use crate::{base::SlotChain, circuitbreaker, flow, hotspot, isolation, stat, system};
+#[cfg(not(sentinel_verif))]
 use lazy_static::lazy_static;
+#[cfg(sentinel_verif)]
+use sentinel_verif_rt::lazy_static;
+#[cfg(not(sentinel_verif))]
 use std::sync::Arc;
+#[cfg(sentinel_verif)]
+use sentinel_verif_rt::sync::Arc;
 
 lazy_static! {
     pub static ref GLOBAL_SLOT_CHAIN: Arc<SlotChain> = {
